@@ -467,6 +467,11 @@ func (sr *srcRenderer) unsup(m J, ind string) string {
 		t = "(" + Y("a") + ")\n"
 	case "rparrdefer":
 		t = fmt.Sprintf("for _, v := range &uarr {\n\tdefer r.E(%d, v, 0)\n}\n", id)
+	case "rparrbrk", "rparrcnt":
+		jump := map[string]string{"rparrbrk": "break", "rparrcnt": "continue"}[str(m["u"])]
+		t = fmt.Sprintf("for k, v := range &uarr {\n\tif r.T(%d) {\n\t\t%s\n\t}\n\tr.E(%d, k, v)\n}\n", id+1, jump, id+2)
+	case "elifinit":
+		t = fmt.Sprintf("if r.T(%d) {\n\tr.E(%d, a, b)\n} else if %s; r.T(%d) {\n\tr.E(%d, a, b)\n}\n", id, id+1, Y("a"), id+2, id+3)
 	case "lrange":
 		t = fmt.Sprintf("L:\n\tfor _, v := range []int{10, 20} {\n\t\tfor r.T(%d) {\n\t\t\t%s\n\t\t\tcontinue L\n\t\t}\n\t\tr.E(%d, v, 0)\n\t}\n", id, Y("v"), id+2)
 	case "clo-lrange":
@@ -711,7 +716,7 @@ func (sr *srcRenderer) genFunc(name string, prog []any, trailing string) string 
 	}
 	tailDecl := sr.pkgVarsOf(prog, name)
 	uk := unsupKind(prog)
-	if uk == "rparr" || uk == "clo-rparr" || uk == "rparrdefer" {
+	if uk == "rparr" || uk == "clo-rparr" || strings.HasPrefix(uk, "rparr") {
 		prolog += "\tuarr := [3]int{10, 20, 30}\n"
 	}
 	if sr.md == coMode {
